@@ -104,3 +104,41 @@ Print Assumptions C08_update_value_preserving_run.
 Print Assumptions C08_session_idempotent.
 Print Assumptions C08_history_session_idempotent_perm.
 Print Assumptions C08_new_code_nil.
+
+(* values in which lists / tuples, dict displays and constructor calls are nested in each other at ANY depth (Model/Nest.v): after a run in which fix and
+   update are approved (whatever else is), every later run that observes the same value - with ANY approved set - keeps the text it finds verbatim:
+   nothing is left to create, fix, trim or update and no file is modified a second time.  `to_tree r` is the source text the first run wrote.  Premises: the
+   expression held no user-controlled part and no call repeated a keyword; the observed value is well-formed; the class table names every field once and its
+   defaults are well-formed values. *)
+From V Require Model.Nest Proofs.NestProofs Proofs.NestValue Proofs.NestFix Proofs.NestEqual Proofs.NestUpdate Proofs.NestStable Proofs.NestSettle.
+Theorem C08_nest_second_run_noop :
+  forall (ct : Nest.ctab), NestFix.ct_ok ct -> NestUpdate.ct_wf ct -> NestSettle.ct_okv ct ->
+  forall (F F' : flags) (o : Nest.ntree) (n : Nest.nval),
+  NestFix.okt o = true -> NestFix.okv ct n = true -> f_fix F = true -> f_update F = true ->
+  let t := NestSettle.to_tree ct (Nest.assign_nest ct F o n) in
+  NestProofs.verbatim (Nest.assign_nest ct F' t n) = Some t.
+Proof. exact NestSettle.nest_second_run_noop. Qed.
+(* the two halves: a run with fix and update leaves an expression in which nothing is left to do (within the scope of the next theorem, nothing for update, value ==
+   the observed one) ... *)
+Theorem C08_nest_run_settles :
+  forall (ct : Nest.ctab), NestFix.ct_ok ct -> NestSettle.ct_okv ct ->
+  forall (f : nat) (F : flags) (o : Nest.ntree) (n : Nest.nval),
+  Nest.depth o < f -> NestFix.okt o = true -> NestFix.okv ct n = true -> f_fix F = true -> f_update F = true ->
+  NestSettle.settled ct (NestSettle.to_tree ct (Nest.assign ct f F o n)) n.
+Proof. exact NestSettle.run_settles. Qed.
+(* ... and such an expression is kept verbatim by a run with any approved set *)
+Theorem C08_nest_equal_stable :
+  forall (ct : Nest.ctab) (f : nat) (F : flags) (o : Nest.ntree) (n : Nest.nval),
+  NestFix.ct_ok ct -> NestUpdate.ct_wf ct -> Nest.depth o < f -> NestEqual.okc ct o = true -> NestFix.okv ct n = true ->
+  NestStable.ustable ct o = true -> Nest.elt_eqb ct o n = true -> NestProofs.verbatim (Nest.assign ct f F o n) = Some o.
+Proof. exact NestStable.nest_equal_stable. Qed.
+Theorem C08_nest_second_run_example :
+  NestFix.okt NestEqual.ex_old = true /\ NestFix.okv NestEqual.ex_ct NestEqual.ex_new2 = true /\
+  NestSettle.to_tree NestEqual.ex_ct (Nest.assign_nest NestEqual.ex_ct NestSettle.all_flags NestEqual.ex_old NestEqual.ex_new2) <> NestEqual.ex_old /\
+  NestProofs.verbatim (Nest.assign_nest NestEqual.ex_ct NestSettle.all_flags (NestSettle.to_tree NestEqual.ex_ct (Nest.assign_nest NestEqual.ex_ct NestSettle.all_flags NestEqual.ex_old NestEqual.ex_new2)) NestEqual.ex_new2)
+  = Some (NestSettle.to_tree NestEqual.ex_ct (Nest.assign_nest NestEqual.ex_ct NestSettle.all_flags NestEqual.ex_old NestEqual.ex_new2)).
+Proof. exact NestSettle.nest_second_run_example. Qed.
+Print Assumptions C08_nest_second_run_noop.
+Print Assumptions C08_nest_run_settles.
+Print Assumptions C08_nest_equal_stable.
+Print Assumptions C08_nest_second_run_example.
